@@ -369,7 +369,7 @@ impl Check for C32 {
             }
             return C32Scn { entropy: 1, ops, exhaustive: true };
         }
-        let n = 4 + r.below(36);
+        let n = (4 + r.below(36)) * r.deep() as u64;
         let addr = |r: &mut Rng| match r.below(10) {
             0..=6 => *r.pick(&ALPHA),
             7 => 0xFE00 + r.below(0x200) as u16,
@@ -655,7 +655,7 @@ impl Check for C30 {
         s.flags.init = if r.bool() { InitS::Known(r.u16()) } else { InitS::Seeded(r.next_u64()) };
         s.max_ticks = 4000;
         s.ops.clear();
-        let n = 4 + r.below(14);
+        let n = (4 + r.below(14)) * r.deep() as u64;
         for _ in 0..n {
             let op = match r.below(22) {
                 0..=3 => Op::Step(1 + r.below(30) as u32),
